@@ -60,6 +60,11 @@ func (g *Gen) lookupContract(fn *ssa.Function) *Contract {
 				pk = p.Pkg.Pkg.Path()
 			}
 		}
+		if g.contract != nil && g.contract.View != "" {
+			if c, ok := g.w.contracts[pk+"::"+relName(fn)+"@"+g.contract.View]; ok {
+				return c
+			}
+		}
 		if c, ok := g.w.contracts[pk+"::"+relName(fn)]; ok {
 			return c
 		}
@@ -597,8 +602,33 @@ func (f *Frame) applyContract(ct *Contract, key string, names []string, sig *typ
 	post := g.newEnv(st, pre)
 	bind(post)
 	bindResults(post, sig, res)
+	// ghost variables of the callee: its postconditions hold for all their values. They are instantiated with the
+	// caller's ghost of the same name and sort when there is one, and universally quantified otherwise.
+	var qvars []string
+	for _, v := range ct.Vars {
+		g.ensureSortNames(v.Sort)
+		inst := ""
+		if g.contract != nil {
+			for _, cv := range g.contract.Vars {
+				if cv.Name == v.Name && cv.Sort == v.Sort {
+					inst = "ghost_" + cv.Name
+				}
+			}
+		}
+		if inst != "" {
+			post.vars[v.Name] = Val{Sort: v.Sort, Term: inst}
+			continue
+		}
+		g.ctr++
+		qn := fmt.Sprintf("gq_%s_%d", mangle(v.Name), g.ctr)
+		post.vars[v.Name] = Val{Sort: v.Sort, Term: qn}
+		qvars = append(qvars, fmt.Sprintf("(%s %s)", qn, monoOptions(v.Sort)))
+	}
 	for _, e := range ct.Ensures {
 		t := post.trBool(e.Expr)
+		if len(qvars) > 0 {
+			t = fmt.Sprintf("(forall (%s) %s)", strings.Join(qvars, " "), t)
+		}
 		g.assume(implies(reach, t))
 	}
 	return res
